@@ -5,6 +5,7 @@
 package world
 
 import (
+	"context"
 	"errors"
 	"fmt"
 	"net"
@@ -176,6 +177,7 @@ type World struct {
 	pointDelays  []int64 // schedule-point delay vector (virtual ns)
 	pointCalls   atomic.Int64
 	pointPending atomic.Int64
+	pointsOn     bool
 	armMu        sync.Mutex
 	arms         []pointArm
 	armed        atomic.Int64
@@ -189,18 +191,41 @@ func New(routerID string, pointDelays []int64) (*World, error) {
 	w.Rec = &Recorder{net: w.Net}
 	w.RouterID = netip.MustParseAddr(routerID)
 	w.Lis = w.Net.NewListener(netip.MustParseAddrPort("0.0.0.0:179"))
-	corebgp.VerifSetDial(w.Net.Dial)
-	if len(pointDelays) > 0 {
-		corebgp.VerifSetPoint(w.point)
-	} else {
-		corebgp.VerifSetPoint(nil)
-	}
+	installHooks()
+	w.pointsOn = len(pointDelays) > 0
+	curWorld.Store(w)
 	srv, err := corebgp.NewServer(w.RouterID)
 	if err != nil {
 		return nil, err
 	}
 	w.Srv = srv
 	return w, nil
+}
+
+// The hook variables in corebgp (build tag verif) are plain package variables: they are set
+// once per process, before any corebgp goroutine exists, to dispatchers that find the world
+// of the moment through an atomic pointer. (Setting them per world raced - for the race
+// detector - with the reads of goroutines that belonged to the previous world's bubble.)
+var (
+	hookOnce sync.Once
+	curWorld atomic.Pointer[World]
+)
+
+func installHooks() {
+	hookOnce.Do(func() {
+		corebgp.VerifSetDial(func(ctx context.Context, local, remote netip.Addr, port int) (net.Conn, error) {
+			w := curWorld.Load()
+			if w == nil {
+				return nil, errors.New("world: no world to dial in")
+			}
+			return w.Net.Dial(ctx, local, remote, port)
+		})
+		corebgp.VerifSetPoint(func(name string) {
+			if w := curWorld.Load(); w != nil && w.pointsOn {
+				w.point(name)
+			}
+		})
+	})
 }
 
 // point is the schedule-point callback. The delay is a real-time busy wait
@@ -408,8 +433,7 @@ func (w *World) Finish() (closeReturned bool) {
 	}
 	w.Lis.Close()
 	w.Settle()
-	corebgp.VerifSetDial(nil)
-	corebgp.VerifSetPoint(nil)
+	curWorld.CompareAndSwap(w, nil)
 	return closeReturned
 }
 
